@@ -294,6 +294,7 @@ struct AdfVolume * adfCreateVol ( struct AdfDevice * const dev,
  vol->lastBlock, vol->rootBlock);
 */
     vol->curDirPtr = vol->rootBlock;
+    vol->blockSize = 512;
 
     vol->readOnly = dev->readOnly;
 
